@@ -7,7 +7,7 @@
 From Coq Require Import String.
 From Coq Require Import ZArith List Bool Permutation.
 From LasV Require Import Lib.Base Gen.GenCopc Model.Copc Proofs.CopcKeys Proofs.CopcDict Proofs.CopcTerm Proofs.CopcNodes
-  Proofs.CopcPoints Proofs.CopcProofs Proofs.CopcWf.
+  Proofs.CopcPoints Proofs.CopcProofs Proofs.CopcWf Proofs.CopcReader.
 Import ListNotations.
 Open Scope list_scope.
 Open Scope Z_scope.
@@ -145,6 +145,55 @@ Theorem C15_shared_bounds : forall ss qb, session qb ss = (qb, map (query_fresh 
 Proof. exact session_shared_bounds. Qed.
 Print Assumptions C15_shared_bounds.
 
+(* ONE reader, many queries: the reader's cached hierarchy (updated in place by every page a query loads, kept when a query
+   ends by an exception) and transient faults of the source at ANY read (hierarchy pages, chunk ranges).  Whatever queries
+   were made before and however they ended, every query either ends by the fault injected into it or returns exactly
+   (as a multiset) what C15_points says of a fresh reader: an aborted query never makes a later one lose or gain points *)
+Theorem C15_reader_session : forall f qs, wf_tree (f_tree f) -> 0 <= g_side (f_geom f) ->
+  Forall2 (step_ok f) qs (map snd (reader_session f (open_cache f) qs)).
+Proof. exact reader_session_ok. Qed.
+Print Assumptions C15_reader_session.
+
+Theorem C15_reader_equals_fresh : forall f qs q, wf_tree (f_tree f) -> 0 <= g_side (f_geom f) -> r_fault q = None ->
+  exists ps ps',
+    last (map snd (reader_session f (open_cache f) (qs ++ [q]))) IOFault = Ans (Ok ps)
+    /\ query (fuel_bound (f_tree f)) (f_tree f) (f_geom f) (r_box q) (f_hz0 f) (f_hz1 f) (r_grid q) (r_lv q) (f_pts f) = Ok ps'
+    /\ Permutation ps ps'.
+Proof. exact reader_equals_fresh. Qed.
+Print Assumptions C15_reader_equals_fresh.
+
+(* without a fault the stateful traversal IS the traversal of C15_nodes started from the cache; a fault fires at a page
+   fetch before anything is merged (the cache is the one the query had reached) *)
+Theorem C15_reader_traversal : forall t g ob lv fuel fault h st acc,
+  (snd (traverse_rd fuel t g ob lv fault h st acc) = IOFault /\ fault <> None)
+  \/ (snd (traverse_rd fuel t g ob lv fault h st acc) = Ans (traverse fuel t g ob lv h st acc)
+      /\ (snd (fst (traverse_rd fuel t g ob lv fault h st acc)) <> None -> fault <> None)).
+Proof. exact rd_outcome. Qed.
+Print Assumptions C15_reader_traversal.
+
+Theorem C15_fault_keeps_cache : forall fuel t g ob lv h k st acc e,
+  in_bounds g ob k = true -> below_stop lv k = true -> lookup k h = Some e -> is_ref e = true ->
+  traverse_rd (S fuel) t g ob lv (Some O) h (k :: st) acc = ((h, None), IOFault).
+Proof. exact fault_at_first_read. Qed.
+Print Assumptions C15_fault_keeps_cache.
+
+(* a REFUSED query (broken page reference) takes nothing of the refused page over: the cache is the one the query had
+   reached - so the refusal is not forgotten: a reader whose root reference is broken refuses every query that reaches the
+   root, however often it is asked (no query after an aborted one returns a partial or a different result) *)
+Theorem C15_refused_keeps_cache : forall fuel t g ob lv fault h k st acc e,
+  in_bounds g ob k = true -> below_stop lv k = true -> lookup k h = Some e -> is_ref e = true ->
+  fails_now fault = false -> page_describes k (page_at (t_pages t) (e_off e) (e_size e)) = false ->
+  traverse_rd (S fuel) t g ob lv fault h (k :: st) acc = ((h, tick fault), Ans (Err ELaspy)).
+Proof. exact refused_keeps_cache. Qed.
+Print Assumptions C15_refused_keeps_cache.
+
+Theorem C15_refused_forever : forall f qs h e, Forall (reaches_root f) qs ->
+  lookup root_key h = Some e -> is_ref e = true ->
+  page_describes root_key (page_at (t_pages (f_tree f)) (e_off e) (e_size e)) = false ->
+  Forall (fun ho => ho = (h, Ans (Err ELaspy))) (reader_session f h qs).
+Proof. exact refused_forever. Qed.
+Print Assumptions C15_refused_forever.
+
 (* the hypotheses are checkable: the executable checks the harness runs on every generated file imply them *)
 Theorem C15_wf_check : forall t, wf_treeb t = true -> wf_tree t.
 Proof. exact wf_treeb_sound. Qed.
@@ -165,7 +214,15 @@ Theorem C15_source_shape :
   /\ gen_queue_sorts_by_offset = true /\ gen_ensure3d_fresh = true
   (* Bounds is a plain record (fields mins / maxs, methods overlaps / ensure_3d, no constructor hook): building a box -
      by the caller, by ensure_3d, for a voxel - has no error outcome, whatever the corners (a box without thickness is a box) *)
-  /\ gen_bounds_plain = true.
+  /\ gen_bounds_plain = true
+  (* the reader's state: the root page is read at hierarchy_root_offset (whether the hierarchy is a VLR in front of the points
+     or an EVLR behind them, the root page first or not) - the `open_cache` of the model; self.root_page is the one cache the
+     queries share - the `h` of reader_session; nothing else is stored on the reader outside __init__ and the decompression
+     buffer is a fresh array of every call: the record a query returns is not touched by later queries (in the model results
+     are values) *)
+  /\ gen_root_page_at_offset = true /\ gen_cache_is_root_page = true /\ gen_query_keeps_no_buffer = true
+  (* a loaded page is checked against the page-reference rule BEFORE its entries are merged (`page_describes`) *)
+  /\ gen_page_checked_before_merge = true.
 Proof. repeat split. Qed.
 Print Assumptions C15_source_shape.
 
@@ -191,6 +248,11 @@ Example C15_nonvacuous :
   /\ (let ns := [mkEntry (mkKey 0 0 0 0) 300 10 2; mkEntry (mkKey 1 0 0 0) 100 20 1; mkEntry (mkKey 2 0 0 0) 200 5 4] in
       byte_queries (groups (sort_off ns)) = [(100, 20); (200, 5); (300, 10)]
       /\ sort_q [(300, 10); (100, 20); (200, 5)] = byte_queries (groups (sort_off ns)) /\ apartb (sort_off ns) = true)
+  /\ (let f := mkFile ex_tree (mkGeom 0 0 0 8) 0 8 ex_pts in let zq := mkQ (0,1) (0,1) (0,1) (3,1) (3,1) (7,2) in
+      map snd (reader_session f (open_cache f)
+        [mkRQ NoBox LvAll zq (Some 0%nat); mkRQ NoBox LvAll zq (Some 2%nat); mkRQ NoBox (LvInt 1) zq None;
+         mkRQ (Box3 0 0 0 3 3 3) LvAll zq None])
+      = [IOFault; IOFault; Ans (Ok [mkPt 5 5 5 2]); Ans (Ok [mkPt 2 2 2 3; mkPt 3 3 4 4; mkPt 3 3 3 5; mkPt 1 1 1 0])])
   /\ fuel_bound ex_tree = 34%nat /\ wf_treeb ex_tree = true
   /\ pts_okb ex_tree (mkCsys 1 (mkAxis 1 1 0) (mkAxis 1 1 0) (mkAxis 1 1 0)) (mkGeom 0 0 0 8) 0 8 ex_pts = true.
 Proof. vm_compute. repeat split. Qed.
